@@ -9,7 +9,7 @@ other work is running.  Results are stored under /verif/seeded/<PROP>-<mK>/."""
 import json, os, re, shutil, subprocess, sys, time
 
 SEED = "/tmp/seed"
-VT = "/tmp/vt"
+VT = os.environ.get("SEED_VT", "/tmp/vt")
 VERIF = "/verif"
 
 
@@ -75,7 +75,17 @@ def main():
     else:
         sh(f"git apply {patch}", cwd=wt)
     # ---- detection: our checks against the patched tree
-    sh(f"git -C {VERIF} worktree add --detach {VT} HEAD 2>/dev/null; git -C {VT} checkout -q --detach $(git -C {VERIF} rev-parse HEAD)")
+    # the scratch worktree of /verif must be AT /verif's HEAD: evidence files rewritten by earlier runs made a plain
+    # checkout fail silently and the checks of an old commit were run instead (found 2026-10-01; every seeded change
+    # was re-run after this was repaired)
+    sh(f"git -C {VERIF} worktree add --detach {VT} HEAD 2>/dev/null")
+    _, want = sh("git rev-parse HEAD", cwd=VERIF)
+    want = want.strip().split("\n")[-1]
+    sh(f"git -C {VT} checkout -q -f --detach {want} && git -C {VT} clean -fdq", cwd=VT)
+    _, have = sh("git rev-parse HEAD", cwd=VT)
+    if have.strip().split("\n")[-1] != want:
+        print("scratch worktree is not at /verif HEAD:", have, want)
+        sys.exit(2)
     sh(f"sed -i 's#path = \"/repo\"#path = \"{wt}\"#' harness/Cargo.toml", cwd=VT)
     det = {}
     for c in checks:
@@ -105,7 +115,9 @@ def main():
                 pass
         print(c, "exit", rc, lines[:2])
     log["detection"] = det
-    log["detected_by"] = [c for c in det if det[c]["exit"] == 1]
+    # detected = the check ran, exited 1 and printed a VIOLATION line (a crash of the check is not a detection)
+    log["detected_by"] = [c for c in det if det[c]["exit"] == 1 and det[c].get("violations", 0) > 0]
+    log["check_crashed"] = [c for c in det if det[c]["exit"] not in (0, 1) or (det[c]["exit"] == 1 and det[c].get("violations", 0) == 0)]
     sh("git checkout -- . && git clean -fdq examples", cwd=wt)
     sh("git checkout -- harness/Cargo.toml", cwd=VT)
     meta_path = os.path.join(dst, "meta.json")
@@ -126,7 +138,7 @@ def main():
     log["verif_head"] = vhead.strip().split("\n")[-1]
     meta["our_confirmation_and_detection"] = log
     json.dump(meta, open(meta_path, "w"), indent=1)
-    print(json.dumps({k: log.get(k) for k in ("confirmed", "test_suite_passes", "demo_without_patch_exit", "demo_with_patch_exit", "detected_by")}))
+    print(json.dumps({k: log.get(k) for k in ("confirmed", "test_suite_passes", "demo_without_patch_exit", "demo_with_patch_exit", "detected_by", "check_crashed")}))
 
 
 if __name__ == "__main__":
